@@ -1,1 +1,869 @@
-fn main() { unimplemented!() }
+//! C12 — descriptor hygiene.  Fault enumeration (engine E2) over the syscall seam on
+//! the real tiny-std / rusl code.
+//!
+//! For every scenario (a public operation that creates descriptors, run as a closure
+//! that returns "the value handed to the caller"):
+//!   1. fault-free run under the seam, recording the N intercepted calls of the parent
+//!      and (for spawn) the calls the forked child makes between fork and exec;
+//!   2. for every index k and every errno of call k's menu (DESIGN.md Appendix C) a
+//!      re-run with call k failing (`close` really closes and then reports the error);
+//!      thorough tier: the full menus and every pair of deviations for scenarios with
+//!      at most 12 calls (the second deviation is enumerated on the log of the run
+//!      that already contains the first one).
+//! Oracle per run: a shadow descriptor table built from the intercepted calls,
+//! cross-checked with /proc/self/fd before the operation, after it and after the
+//! returned value was dropped.
+
+#![allow(non_upper_case_globals)]
+
+mod scenarios;
+
+use common::*;
+use scenarios::{Env, Res, Ret, Scn};
+use serde_json::{json, Value};
+use std::collections::{BTreeMap, BTreeSet, HashMap, HashSet};
+use std::sync::atomic::{AtomicI32, AtomicU32, Ordering};
+use sysx::{Call, Decision, Plan};
+
+pub static PARENT: AtomicI32 = AtomicI32::new(0);
+
+/// In a forked child that came back into harness code (a child-side failure makes
+/// `spawn` return in the child): leave at once, before anything is touched.
+pub fn child_guard() {
+    unsafe {
+        if libc::getpid() != PARENT.load(Ordering::Relaxed) {
+            libc::_exit(0);
+        }
+    }
+}
+
+// ---------------------------------------------------------------------------
+// errno menus (DESIGN.md Appendix C): (errnos, how many of them the quick tier uses)
+
+fn menu(nr: i64) -> (&'static [i32], usize) {
+    use libc::*;
+    const OPEN: &[i32] = &[EMFILE, ENOENT, EACCES, ENOMEM];
+    const NEWFD: &[i32] = &[EMFILE, ENFILE, ENOMEM];
+    const ACCEPT: &[i32] = &[EMFILE, EAGAIN, ENFILE, ENOMEM, EINTR];
+    const CONNECT: &[i32] = &[ECONNREFUSED, EAGAIN, ENOENT, EINPROGRESS, EINTR];
+    const BIND: &[i32] = &[EADDRINUSE, EACCES];
+    const LISTEN: &[i32] = &[EADDRINUSE];
+    const FORK: &[i32] = &[EAGAIN, ENOMEM];
+    const DUP3: &[i32] = &[EMFILE, EBUSY];
+    const CHDIR: &[i32] = &[ENOENT, ENOTDIR];
+    const SETID: &[i32] = &[EPERM];
+    const SETPGID: &[i32] = &[EPERM, ESRCH];
+    const EXECVE: &[i32] = &[ENOENT, EACCES, ENOMEM, E2BIG];
+    const MMAP: &[i32] = &[ENOMEM];
+    const IOCTL: &[i32] = &[ENOTTY, EIO];
+    const FCNTL: &[i32] = &[EINVAL];
+    const GETDENTS: &[i32] = &[EIO];
+    const DIRMOD: &[i32] = &[EACCES, ENOSPC, EROFS];
+    const CFR: &[i32] = &[EXDEV, EIO];
+    const STAT: &[i32] = &[EACCES];
+    const RW: &[i32] = &[EINTR, EIO];
+    const POLL: &[i32] = &[EINTR, ENOMEM];
+    const CLOSE: &[i32] = &[EINTR, EIO];
+    const WAIT: &[i32] = &[EINTR, ECHILD];
+    const EPCTL: &[i32] = &[ENOMEM, ENOSPC];
+    const SOCKNAME: &[i32] = &[ENOBUFS];
+    const NONE: &[i32] = &[];
+    match nr {
+        SYS_open | SYS_openat | SYS_openat2 | SYS_creat => (OPEN, 1),
+        SYS_socket | SYS_pipe2 | SYS_pipe | SYS_epoll_create1 | SYS_epoll_create | SYS_io_uring_setup | SYS_socketpair => (NEWFD, 1),
+        SYS_accept4 | SYS_accept => (ACCEPT, 2),
+        SYS_connect => (CONNECT, 2),
+        SYS_bind => (BIND, 1),
+        SYS_listen => (LISTEN, 1),
+        SYS_fork | SYS_vfork | SYS_clone => (FORK, 1),
+        SYS_dup3 | SYS_dup2 | SYS_dup => (DUP3, 1),
+        SYS_chdir => (CHDIR, 1),
+        SYS_setuid | SYS_setgid => (SETID, 1),
+        SYS_setpgid => (SETPGID, 1),
+        SYS_execve => (EXECVE, 1),
+        SYS_mmap | SYS_mremap => (MMAP, 1),
+        SYS_ioctl => (IOCTL, 1),
+        SYS_fcntl => (FCNTL, 1),
+        SYS_getdents64 | SYS_getdents => (GETDENTS, 1),
+        SYS_unlinkat | SYS_mkdirat | SYS_renameat | SYS_renameat2 | SYS_unlink | SYS_rmdir | SYS_mkdir | SYS_rename => (DIRMOD, 1),
+        SYS_copy_file_range => (CFR, 1),
+        SYS_statx | SYS_fstat | SYS_stat | SYS_lstat | SYS_newfstatat => (STAT, 1),
+        SYS_read | SYS_write | SYS_readv | SYS_writev => (RW, 1),
+        SYS_ppoll | SYS_poll | SYS_epoll_pwait | SYS_epoll_wait => (POLL, 1),
+        SYS_close => (CLOSE, 1),
+        SYS_wait4 => (WAIT, 1),
+        SYS_epoll_ctl => (EPCTL, 1),
+        SYS_getsockname | SYS_setsockopt | SYS_getsockopt => (SOCKNAME, 1),
+        // exit never returns, munmap/uname/getpid have no failure Linux really produces here
+        _ => (NONE, 0),
+    }
+}
+
+fn errnos_for(nr: i64, thorough: bool) -> &'static [i32] {
+    let (m, q) = menu(nr);
+    if thorough {
+        m
+    } else {
+        &m[..q.min(m.len())]
+    }
+}
+
+fn errno_name(e: i32) -> String {
+    use libc::*;
+    let t: &[(i32, &str)] = &[
+        (EMFILE, "EMFILE"), (ENFILE, "ENFILE"), (ENOMEM, "ENOMEM"), (ENOENT, "ENOENT"), (EACCES, "EACCES"), (EAGAIN, "EAGAIN"),
+        (EINTR, "EINTR"), (EIO, "EIO"), (ECONNREFUSED, "ECONNREFUSED"), (EINPROGRESS, "EINPROGRESS"), (EADDRINUSE, "EADDRINUSE"),
+        (EBUSY, "EBUSY"), (ENOTDIR, "ENOTDIR"), (EPERM, "EPERM"), (ESRCH, "ESRCH"), (E2BIG, "E2BIG"), (ENOTTY, "ENOTTY"),
+        (EINVAL, "EINVAL"), (ENOSPC, "ENOSPC"), (EROFS, "EROFS"), (EXDEV, "EXDEV"), (ECHILD, "ECHILD"), (ENOBUFS, "ENOBUFS"),
+    ];
+    t.iter().find(|x| x.0 == e).map(|x| x.1.to_string()).unwrap_or_else(|| format!("errno{e}"))
+}
+
+// ---------------------------------------------------------------------------
+// the plan: fails the chosen calls, records what pipe2/socketpair handed out, and
+// lets the forked child report its calls through a shared page
+
+#[derive(Clone, Copy, Debug, PartialEq, Eq, Hash, PartialOrd, Ord)]
+pub struct Fault {
+    child: bool,
+    k: usize,
+    errno: i32,
+}
+
+const CHILD_CAP: usize = 96;
+#[repr(C)]
+#[derive(Clone, Copy)]
+struct ChildRec {
+    idx: u32,
+    nr: i32,
+    ret: i64,
+}
+#[repr(C)]
+struct Shared {
+    n: AtomicU32,
+    recs: [ChildRec; CHILD_CAP],
+}
+
+fn alloc_shared() -> *mut Shared {
+    unsafe {
+        let p = libc::mmap(
+            std::ptr::null_mut(),
+            std::mem::size_of::<Shared>(),
+            libc::PROT_READ | libc::PROT_WRITE,
+            libc::MAP_SHARED | libc::MAP_ANONYMOUS,
+            -1,
+            0,
+        );
+        assert!(p != libc::MAP_FAILED);
+        p as *mut Shared
+    }
+}
+
+struct FdPlan {
+    parent: i32,
+    faults: Vec<Fault>,
+    hit: Vec<bool>,
+    /// every `close` really closes and then reports this errno (drop phase)
+    close_err: Option<i32>,
+    pairs: HashMap<usize, [i32; 2]>,
+    shared: *mut Shared,
+}
+
+impl Plan for FdPlan {
+    fn decide(&mut self, idx: usize, nr: i64, _args: &[u64; 6]) -> Decision {
+        let child = unsafe { libc::getpid() } != self.parent;
+        if child && !self.shared.is_null() {
+            // recorded before the call is answered: a successful execve never comes back
+            unsafe {
+                let sh = &mut *self.shared;
+                let n = sh.n.fetch_add(1, Ordering::SeqCst) as usize;
+                if n < CHILD_CAP {
+                    sh.recs[n] = ChildRec { idx: idx as u32, nr: nr as i32, ret: 0 };
+                }
+            }
+        }
+        for (i, f) in self.faults.iter().enumerate() {
+            if f.child == child && f.k == idx {
+                self.hit[i] = true;
+                return if nr == libc::SYS_close { Decision::PassThenForce(-(f.errno as i64)) } else { Decision::Force(-(f.errno as i64)) };
+            }
+        }
+        if nr == libc::SYS_close && !child {
+            if let Some(e) = self.close_err {
+                return Decision::PassThenForce(-(e as i64));
+            }
+        }
+        Decision::Pass
+    }
+    fn after(&mut self, idx: usize, c: &Call) {
+        if c.pid != self.parent {
+            return;
+        }
+        if c.real == Some(0) && (c.nr == libc::SYS_pipe2 || c.nr == libc::SYS_pipe || c.nr == libc::SYS_socketpair) {
+            let p = if c.nr == libc::SYS_socketpair { c.args[3] } else { c.args[0] } as *const i32;
+            if !p.is_null() {
+                let v = unsafe { [p.read_unaligned(), p.add(1).read_unaligned()] };
+                self.pairs.insert(idx, v);
+            }
+        }
+    }
+}
+
+// ---------------------------------------------------------------------------
+// shadow descriptor / mapping table
+
+#[derive(Clone, Debug, PartialEq)]
+enum Origin {
+    Pre,
+    Given,
+    New { sc: &'static str, ordinal: usize, sub: usize },
+}
+
+#[derive(Default)]
+struct Shadow {
+    open: BTreeMap<i32, Origin>,
+    closed_in_run: BTreeSet<i32>,
+    created: HashMap<&'static str, usize>,
+    maps: Vec<(u64, u64)>,
+    stray_munmaps: usize,
+    /// (kind, description)
+    viol: Vec<(&'static str, String)>,
+}
+
+fn creator(nr: i64) -> bool {
+    use libc::*;
+    matches!(
+        nr,
+        SYS_open | SYS_openat | SYS_openat2 | SYS_creat | SYS_socket | SYS_accept | SYS_accept4 | SYS_epoll_create | SYS_epoll_create1
+            | SYS_io_uring_setup | SYS_dup | SYS_eventfd | SYS_eventfd2 | SYS_timerfd_create | SYS_memfd_create | SYS_inotify_init1
+            | SYS_signalfd4 | SYS_pidfd_open | SYS_userfaultfd
+    )
+}
+
+impl Shadow {
+    fn new(before: &BTreeMap<i32, String>, given: &[i32]) -> Shadow {
+        let mut s = Shadow::default();
+        for fd in before.keys() {
+            s.open.insert(*fd, if given.contains(fd) { Origin::Given } else { Origin::Pre });
+        }
+        s
+    }
+    fn add(&mut self, fd: i32, sc: &'static str, sub: usize, pair_ordinal: Option<usize>) -> usize {
+        let ordinal = match pair_ordinal {
+            Some(o) => o,
+            None => {
+                let c = self.created.entry(sc).or_insert(0);
+                *c += 1;
+                *c - 1
+            }
+        };
+        self.open.insert(fd, Origin::New { sc, ordinal, sub });
+        self.closed_in_run.remove(&fd);
+        ordinal
+    }
+    fn apply(&mut self, idx: usize, c: &Call, pairs: &HashMap<usize, [i32; 2]>, phase: &str) {
+        let Some(real) = c.real else { return }; // forced: never happened
+        let nr = c.nr;
+        let name = sysx::name(nr);
+        if creator(nr) {
+            if real >= 0 {
+                self.add(real as i32, name, 0, None);
+            }
+        } else if nr == libc::SYS_pipe2 || nr == libc::SYS_pipe || nr == libc::SYS_socketpair {
+            if real == 0 {
+                if let Some(p) = pairs.get(&idx) {
+                    let o = self.add(p[0], name, 0, None);
+                    self.add(p[1], name, 1, Some(o));
+                }
+            }
+        } else if nr == libc::SYS_dup3 || nr == libc::SYS_dup2 {
+            if real >= 0 {
+                self.add(c.args[1] as i32, name, 0, None);
+            }
+        } else if nr == libc::SYS_fcntl {
+            let cmd = c.args[1] as i32;
+            if real >= 0 && (cmd == libc::F_DUPFD || cmd == libc::F_DUPFD_CLOEXEC) {
+                self.add(real as i32, "fcntl-dupfd", 0, None);
+            }
+        } else if nr == libc::SYS_close {
+            let fd = c.args[0] as i32;
+            match self.open.remove(&fd) {
+                Some(Origin::Pre) => {
+                    self.viol.push(("closes-foreign-fd", format!("{phase}: call #{idx} close({fd}) closes a descriptor that was open before the operation and was not handed to it (kernel answered {real})")));
+                }
+                Some(_) => {
+                    self.closed_in_run.insert(fd);
+                }
+                None => {
+                    let how = if self.closed_in_run.contains(&fd) { "which this run already closed" } else { "which is not open" };
+                    self.viol.push(("double-close", format!("{phase}: call #{idx} close({fd}) on a descriptor number {how} (kernel answered {real})")));
+                }
+            }
+        } else if nr == libc::SYS_mmap {
+            if !(-4095..0).contains(&real) {
+                self.maps.push((real as u64, c.args[1]));
+            }
+        } else if nr == libc::SYS_munmap {
+            let key = (c.args[0], c.args[1]);
+            match self.maps.iter().position(|m| *m == key) {
+                Some(p) => {
+                    self.maps.remove(p);
+                }
+                None => self.stray_munmaps += 1,
+            }
+        }
+    }
+}
+
+fn generic_label(sc: &str, ordinal: usize, sub: usize, total: usize) -> String {
+    let base = match sc {
+        "socket" => "socket",
+        "accept4" | "accept" => "accepted-socket",
+        "epoll_create1" | "epoll_create" => "epoll-fd",
+        "io_uring_setup" => "ring-fd",
+        "pipe2" | "pipe" => {
+            if sub == 0 {
+                "pipe-read-end"
+            } else {
+                "pipe-write-end"
+            }
+        }
+        "open" | "openat" | "openat2" => "file",
+        o => o,
+    };
+    if total > 1 {
+        format!("{base}#{ordinal}")
+    } else {
+        base.to_string()
+    }
+}
+
+// ---------------------------------------------------------------------------
+// one case
+
+#[derive(Default, Clone)]
+struct CaseOut {
+    class: String,
+    /// syscall numbers of the parent's calls during the operation
+    parent_calls: Vec<i64>,
+    /// (index in the child's numbering, syscall number) of the forked child's calls
+    child_calls: Vec<(usize, i64)>,
+    fork_idx: Option<usize>,
+    leaked: BTreeSet<String>,
+    totals: HashMap<&'static str, usize>,
+    any_hit: bool,
+}
+
+struct Ctx<'a> {
+    shared: *mut Shared,
+    /// labels leaked by the fault-free run (the same defect is not re-keyed per failing call)
+    base_leaks: Option<&'a BTreeSet<String>>,
+    base_totals: Option<&'a HashMap<&'static str, usize>>,
+    verbose: bool,
+}
+
+fn fd_map() -> BTreeMap<i32, String> {
+    sysx::fd_table().into_iter().collect()
+}
+
+fn case_json(name: &str, faults: &[Fault], drop_close: Option<i32>) -> Value {
+    json!({
+        "op": name,
+        "scenario": name,
+        "k": faults.iter().map(|f| f.k).collect::<Vec<_>>(),
+        "errno": faults.iter().map(|f| f.errno).collect::<Vec<_>>(),
+        "child": faults.iter().map(|f| f.child).collect::<Vec<_>>(),
+        "drop_close_errno": drop_close,
+    })
+}
+
+fn reap(pid: i32) {
+    unsafe {
+        let mut st = 0;
+        for i in 0..400 {
+            let r = libc::waitpid(pid, &mut st, libc::WNOHANG);
+            if r != 0 {
+                return; // reaped now, or already reaped by the code under test (ECHILD)
+            }
+            if i == 200 {
+                libc::kill(pid, libc::SIGKILL);
+            }
+            libc::usleep(500);
+        }
+        libc::kill(pid, libc::SIGKILL);
+        libc::waitpid(pid, &mut st, 0);
+    }
+}
+
+fn run_case(s: &mut Scn, env: &mut Env, faults: &[Fault], drop_close: Option<i32>, r: &mut Report, cx: &Ctx) -> CaseOut {
+    let name = s.name.clone();
+    let cj = case_json(&name, faults, drop_close);
+    if let Some(p) = s.prepare.as_mut() {
+        p(env);
+    }
+    r.eval();
+    r.nontrivial_unique();
+    set_case(&cj.to_string());
+    unsafe {
+        libc::alarm(30);
+        (*cx.shared).n.store(0, Ordering::SeqCst);
+    }
+    let parent = PARENT.load(Ordering::Relaxed);
+    let given = env.given.clone();
+    let before = fd_map();
+    let mut plan = FdPlan { parent, faults: faults.to_vec(), hit: vec![false; faults.len()], close_err: None, pairs: HashMap::new(), shared: cx.shared };
+    // ---- phase A: the operation
+    let (res, log_a) = sysx::run(&mut plan, || {
+        let x = catch(|| {
+            let x = (s.op)(env);
+            child_guard();
+            x
+        });
+        child_guard();
+        x
+    });
+    child_guard();
+    let after_a = fd_map();
+    let pairs_a = std::mem::take(&mut plan.pairs);
+    let hit = plan.hit.clone();
+    let mut sh = Shadow::new(&before, &given);
+    for (i, c) in log_a.iter().enumerate() {
+        sh.apply(i, c, &pairs_a, "operation");
+    }
+    let (ret, panic_msg) = match res {
+        Ok(ret) => (ret, None),
+        Err(p) => (Ret { res: Res::Err(format!("panic: {p}")), owned: vec![], held: None }, Some(p)),
+    };
+    let Ret { res, owned, held } = ret;
+    let is_err = matches!(res, Res::Err(_));
+    let any_hit = hit.iter().any(|h| *h);
+    // ---- analysis after the operation
+    let totals: HashMap<&'static str, usize> = sh.created.clone();
+    let label = |sc: &'static str, ordinal: usize, sub: usize| -> String {
+        if let Some(l) = s.label.as_ref().and_then(|f| f(sc, ordinal, sub)) {
+            return l;
+        }
+        let total = cx.base_totals.and_then(|t| t.get(sc).copied()).unwrap_or(0).max(totals.get(sc).copied().unwrap_or(0));
+        generic_label(sc, ordinal, sub, total)
+    };
+    let fork_idx = log_a.iter().position(|c| c.nr == libc::SYS_fork && c.real.map(|x| x > 0).unwrap_or(false));
+    let fault_desc = |kinds: &[(usize, i64)]| -> String {
+        faults
+            .iter()
+            .map(|f| {
+                let nr = if f.child { kinds.iter().find(|c| c.0 == f.k).map(|c| c.1) } else { log_a.get(f.k).map(|c| c.nr) };
+                format!("{}call #{} ({}) failing with {}", if f.child { "child-side " } else { "" }, f.k, nr.map(sysx::name).unwrap_or("?"), errno_name(f.errno))
+            })
+            .collect::<Vec<_>>()
+            .join(" and ")
+    };
+    // the syscall blamed in `fd-left-open-on-failure:<which>@<failing>`: the first deviation that was reached
+    let res_txt = match &res {
+        Res::Ok(d) => format!("Ok({d})"),
+        Res::None => "Ok(None)".to_string(),
+        Res::Err(e) => format!("Err({e})"),
+    };
+
+    // cross-check shadow table against /proc/self/fd
+    let shadow_set: BTreeSet<i32> = sh.open.keys().copied().collect();
+    let actual_set: BTreeSet<i32> = after_a.keys().copied().collect();
+    let mut unknown_new: Vec<i32> = Vec::new();
+    if shadow_set != actual_set {
+        for fd in actual_set.difference(&shadow_set) {
+            unknown_new.push(*fd);
+            sh.open.insert(*fd, Origin::New { sc: "unlogged", ordinal: 0, sub: 0 });
+        }
+        let gone: Vec<i32> = shadow_set.difference(&actual_set).copied().collect();
+        for fd in &gone {
+            sh.open.remove(fd);
+        }
+        r.note(format!("{name}: shadow table and /proc/self/fd disagree after the operation (only in /proc: {unknown_new:?}, only in shadow: {gone:?}) case {cj}"));
+        r.cap(format!("{name}: shadow/proc mismatch"));
+    }
+
+    // ---- phase B: drop the returned value under the seam
+    let mut plan_b = FdPlan { parent, faults: vec![], hit: vec![], close_err: drop_close, pairs: HashMap::new(), shared: std::ptr::null_mut() };
+    let (dres, log_b) = sysx::run(&mut plan_b, || catch(move || drop(held)));
+    let after_b = fd_map();
+
+    // child log (the child is reaped first so that it has finished writing)
+    for c in &log_a {
+        if c.nr == libc::SYS_fork {
+            if let Some(pid) = c.real {
+                if pid > 0 {
+                    reap(pid as i32);
+                }
+            }
+        }
+    }
+    let child_calls: Vec<(usize, i64)> = unsafe {
+        let shp = &*cx.shared;
+        let n = (shp.n.load(Ordering::SeqCst) as usize).min(CHILD_CAP);
+        (0..n).map(|i| (shp.recs[i].idx as usize, shp.recs[i].nr as i64)).collect()
+    };
+    let fdesc = fault_desc(&child_calls);
+    let failing_name: String = faults
+        .iter()
+        .zip(hit.iter())
+        .filter(|(f, h)| **h || f.child)
+        .map(|(f, _)| {
+            if f.child {
+                format!("child-{}", child_calls.iter().find(|c| c.0 == f.k).map(|c| sysx::name(c.1)).unwrap_or("?"))
+            } else {
+                log_a.get(f.k).map(|c| sysx::name(c.nr)).unwrap_or("?").to_string()
+            }
+        })
+        .next()
+        .unwrap_or_else(|| "none".into());
+    let ctxt = if faults.is_empty() { "fault-free run".to_string() } else { fdesc.clone() };
+
+    let mut out = CaseOut { totals: totals.clone(), fork_idx, any_hit, ..Default::default() };
+    out.parent_calls = log_a.iter().map(|c| c.nr).collect();
+    out.child_calls = child_calls.clone();
+
+    if let Some(p) = &panic_msg {
+        r.violation(&format!("C12:{name}:panic"), format!("{name} panicked ({ctxt}): {p}"), cj.clone());
+    }
+    // (b)/(c) from the call log of the operation
+    for (kind, d) in std::mem::take(&mut sh.viol) {
+        r.violation(&format!("C12:{name}:{kind}"), format!("{name}, {ctxt}; result {res_txt}: {d}"), cj.clone());
+    }
+    // (a) what is open now and was not before must be exactly what the caller got
+    let mut leaked_fds: Vec<i32> = Vec::new();
+    for (fd, o) in sh.open.iter() {
+        if let Origin::New { sc, ordinal, sub } = o {
+            if owned.contains(fd) {
+                continue;
+            }
+            leaked_fds.push(*fd);
+            let which = label(sc, *ordinal, *sub);
+            out.leaked.insert(which.clone());
+            let target = after_a.get(fd).cloned().unwrap_or_default();
+            let in_base = cx.base_leaks.map(|b| b.contains(&which)).unwrap_or(false);
+            let key = if faults.is_empty() || in_base {
+                format!("C12:{name}:fd-left-open:{which}")
+            } else {
+                format!("C12:{name}:fd-left-open-on-failure:{which}@{failing_name}")
+            };
+            r.violation(
+                &key,
+                format!(
+                    "{name}, {ctxt}: returned {res_txt}; descriptor {fd} -> {target} (created by {sc}, creation #{ordinal}{}) is still open and is not reachable from the returned value{}",
+                    if *sc == "pipe2" { if *sub == 0 { ", read end" } else { ", write end" } } else { "" },
+                    if owned.is_empty() { String::new() } else { format!(" (which owns {owned:?})") }
+                ),
+                cj.clone(),
+            );
+        }
+    }
+    for fd in &owned {
+        match sh.open.get(fd) {
+            Some(Origin::New { .. }) | Some(Origin::Given) => {}
+            Some(Origin::Pre) => r.violation(
+                &format!("C12:{name}:returns-foreign-fd"),
+                format!("{name}, {ctxt}: the returned value owns descriptor {fd}, which was open before the operation and not handed to it"),
+                cj.clone(),
+            ),
+            None => r.violation(
+                &format!("C12:{name}:returned-fd-not-open"),
+                format!("{name}, {ctxt}: returned {res_txt} owning descriptor {fd}, which is not open"),
+                cj.clone(),
+            ),
+        }
+    }
+    // mappings (setup_io_uring): on failure nothing may stay mapped
+    if is_err && !sh.maps.is_empty() {
+        r.violation(
+            &format!("C12:{name}:mapping-leaked"),
+            format!("{name}, {ctxt}: returned {res_txt} but {} mapping(s) created by the operation are still mapped: {:x?}", sh.maps.len(), sh.maps),
+            cj.clone(),
+        );
+        for (a, l) in sh.maps.drain(..) {
+            unsafe {
+                libc::munmap(a as *mut _, l as usize);
+            }
+        }
+    }
+
+    // ---- analysis of the drop
+    let pairs_b = HashMap::new();
+    for (i, c) in log_b.iter().enumerate() {
+        sh.apply(i, c, &pairs_b, "drop of the returned value");
+    }
+    if let Err(p) = dres {
+        r.violation(&format!("C12:{name}:panic"), format!("dropping the value returned by {name} panicked ({ctxt}): {p}"), cj.clone());
+    }
+    for (kind, d) in std::mem::take(&mut sh.viol) {
+        r.violation(&format!("C12:{name}:{kind}"), format!("{name}, {ctxt}; result {res_txt}: {d}"), cj.clone());
+    }
+    if s.drop_releases {
+        for fd in &owned {
+            if let Some(Origin::New { sc, .. }) = sh.open.get(fd) {
+                r.violation(
+                    &format!("C12:{name}:drop-leaves-fd"),
+                    format!("{name}, {ctxt}: descriptor {fd} (created by {sc}) is owned by the returned value and is still open after the value was dropped"),
+                    cj.clone(),
+                );
+            }
+        }
+        if !sh.maps.is_empty() {
+            r.violation(
+                &format!("C12:{name}:mapping-leaked"),
+                format!("{name}, {ctxt}: {} mapping(s) still mapped after the returned value was dropped: {:x?}", sh.maps.len(), sh.maps),
+                cj.clone(),
+            );
+        }
+    }
+    if sh.stray_munmaps > 0 {
+        r.note(format!("{name}: {} munmap call(s) on a range that the shadow mapping table does not hold (C18's subject: drop unmaps the shared ring twice)", sh.stray_munmaps));
+    }
+    let shadow_set: BTreeSet<i32> = sh.open.keys().copied().collect();
+    let actual_set: BTreeSet<i32> = after_b.keys().copied().collect();
+    if shadow_set != actual_set {
+        r.note(format!("{name}: shadow table and /proc/self/fd disagree after the drop: shadow {shadow_set:?} proc {actual_set:?} case {cj}"));
+        r.cap(format!("{name}: shadow/proc mismatch"));
+    }
+    // (d) + repair: everything that is open now and was not before goes away
+    for (fd, o) in sh.open.iter() {
+        if matches!(o, Origin::New { .. }) {
+            unsafe {
+                libc::close(*fd);
+            }
+        }
+    }
+    for fd in actual_set.difference(&shadow_set) {
+        if !before.contains_key(fd) {
+            unsafe {
+                libc::close(*fd);
+            }
+        }
+    }
+    for (a, l) in sh.maps.drain(..) {
+        unsafe {
+            libc::munmap(a as *mut _, l as usize);
+        }
+    }
+    unsafe {
+        libc::alarm(0);
+    }
+    clear_case();
+    if let Some(c) = s.cleanup.as_mut() {
+        c(env);
+    }
+
+    out.class = match (&res, faults.is_empty(), any_hit || faults.iter().any(|f| f.child)) {
+        _ if panic_msg.is_some() => "panic",
+        (Res::Ok(_), true, _) => "ok",
+        (Res::None, true, _) => "ok-none",
+        (Res::Err(_), true, _) => "err-natural",
+        (Res::Err(_), false, true) => "err-injected",
+        (Res::Ok(_), false, true) => "ok-despite-fault",
+        (Res::None, false, true) => "none-after-fault",
+        (_, false, false) => "fault-not-reached",
+    }
+    .to_string();
+    r.outcome(&out.class);
+    if !leaked_fds.is_empty() {
+        r.outcome("leak-observed");
+    }
+    if cx.verbose {
+        println!("case {cj}");
+        println!("  before: {:?}", before.keys().collect::<Vec<_>>());
+        for (i, c) in log_a.iter().enumerate() {
+            println!("  op   #{i:<2} {:<16} args[0..3]={:x?} -> {} {}", sysx::name(c.nr), &c.args[..3], c.ret, match c.real { None => "(forced, not executed)".to_string(), Some(x) if x != c.ret => format!("(kernel really answered {x})"), _ => String::new() });
+        }
+        for (k, nr) in &child_calls {
+            println!("  child #{k:<2} {}", sysx::name(*nr));
+        }
+        println!("  result: {res_txt}; owned descriptors {owned:?}");
+        println!("  after operation: {:?}", after_a);
+        for (i, c) in log_b.iter().enumerate() {
+            println!("  drop #{i:<2} {:<16} args[0]={} -> {}", sysx::name(c.nr), c.args[0], c.ret);
+        }
+        println!("  after drop: {:?}", after_b.keys().collect::<Vec<_>>());
+        println!("  class: {}", out.class);
+    }
+    out
+}
+
+// ---------------------------------------------------------------------------
+// enumeration per scenario
+
+fn points(o: &CaseOut, thorough: bool) -> Vec<Fault> {
+    let mut v = Vec::new();
+    for (k, nr) in o.parent_calls.iter().enumerate() {
+        for e in errnos_for(*nr, thorough) {
+            v.push(Fault { child: false, k, errno: *e });
+        }
+    }
+    for (k, nr) in &o.child_calls {
+        if *nr == libc::SYS_fork {
+            continue;
+        }
+        for e in errnos_for(*nr, thorough) {
+            v.push(Fault { child: true, k: *k, errno: *e });
+        }
+    }
+    v
+}
+
+extern "C" fn on_alarm(_: libc::c_int) {
+    // a case that does not finish: let the crash handler attribute it
+    unsafe { libc::abort() }
+}
+
+fn shard_setup() {
+    PARENT.store(unsafe { libc::getpid() }, Ordering::SeqCst);
+    unsafe {
+        libc::signal(libc::SIGALRM, on_alarm as *const () as usize);
+        libc::signal(libc::SIGPIPE, libc::SIG_IGN);
+    }
+}
+
+fn run_scenario(mut s: Scn, thorough: bool) -> Report {
+    shard_setup();
+    let mut r = Report::new();
+    let mut env = Env::new(&s.name);
+    if let Some(i) = s.init.as_mut() {
+        i(&mut env);
+    }
+    let shared = alloc_shared();
+    let name = s.name.clone();
+    let cx0 = Ctx { shared, base_leaks: None, base_totals: None, verbose: false };
+    let base = run_case(&mut s, &mut env, &[], None, &mut r, &cx0);
+    let base_leaks = base.leaked.clone();
+    let base_totals = base.totals.clone();
+    let cx = Ctx { shared, base_leaks: Some(&base_leaks), base_totals: Some(&base_totals), verbose: false };
+    let n = base.parent_calls.len();
+    r.bound(&format!("calls[{name}]"), json!({"parent": n, "child": base.child_calls.iter().filter(|c| c.1 != libc::SYS_fork).count()}));
+    for nr in base.parent_calls.iter().chain(base.child_calls.iter().map(|c| &c.1)) {
+        if menu(*nr).0.is_empty() && !matches!(*nr, libc::SYS_exit | libc::SYS_exit_group | libc::SYS_munmap | libc::SYS_uname | libc::SYS_fork) {
+            r.note(format!("{name}: no errno menu for {} — call not failed", sysx::name(*nr)));
+        }
+    }
+    r.sample(json!({"scenario": name, "fault_free_calls": base.parent_calls.iter().map(|n| sysx::name(*n)).collect::<Vec<_>>(),
+        "child_calls": base.child_calls.iter().map(|c| sysx::name(c.1)).collect::<Vec<_>>(), "class": base.class}));
+    // drop with every close reporting an error after really closing
+    run_case(&mut s, &mut env, &[], Some(libc::EIO), &mut r, &cx);
+    let mut seen: HashSet<Vec<Fault>> = HashSet::new();
+    let singles = points(&base, thorough);
+    let do_pairs = thorough && n <= 12;
+    for f1 in &singles {
+        let fs = vec![*f1];
+        if !seen.insert(fs.clone()) {
+            continue;
+        }
+        let o1 = run_case(&mut s, &mut env, &fs, None, &mut r, &cx);
+        if !do_pairs {
+            continue;
+        }
+        for f2 in points(&o1, true) {
+            // strictly later than the first deviation on the same side; on the other side only what runs after the fork
+            let later = if f2.child == f1.child {
+                f2.k > f1.k
+            } else if f2.child {
+                true
+            } else {
+                o1.fork_idx.map(|fi| f2.k > fi).unwrap_or(false)
+            };
+            if !later {
+                continue;
+            }
+            let mut fs2 = vec![*f1, f2];
+            fs2.sort();
+            if !seen.insert(fs2.clone()) {
+                continue;
+            }
+            run_case(&mut s, &mut env, &fs2, None, &mut r, &cx);
+        }
+    }
+    if let Some(f) = s.fini.as_mut() {
+        f(&mut env);
+    }
+    env.remove();
+    r
+}
+
+fn c12(args: &Args) -> Report {
+    let thorough = args.thorough;
+    let mut items = Vec::new();
+    let names: Vec<String> = scenarios::all().iter().map(|s| s.name.clone()).collect();
+    for s in scenarios::all() {
+        let nm = s.name.clone();
+        items.push(isolated(nm, move || run_scenario(s, thorough)));
+    }
+    let mut r = run_isolated(items, &args.out, "C12");
+    r.rule = format!(
+        "{} scenarios (public operations of fs/net/process/epoll/openpty/passwd/random/get_pass/io_uring that create descriptors, incl. invalid-argument variants), one forked shard each; \
+         per scenario: the fault-free run, one run whose drop sees every close report EIO, and one run per (call index k of the fault-free log, parent side and forked-child side) x (errno of that call's menu; \
+         quick: first errno of the class, two for accept4/connect; thorough: the whole menu, plus every pair of deviations for scenarios with <= 12 parent calls, the second one enumerated on the log of the run containing the first). \
+         close is executed and then reports the error. Each (scenario, deviation set) is generated once. Oracle: shadow descriptor table from the call log, cross-checked with /proc/self/fd before / after the operation / after dropping the returned value.",
+        names.len()
+    );
+    r.bound("scenarios", names.len());
+    r.bound("pairs_for_calls_le", 12);
+    r.bound("tier", if thorough { "thorough" } else { "quick" });
+    r
+}
+
+fn replay(v: &Value) -> Report {
+    let name = v["scenario"].as_str().or(v["op"].as_str()).unwrap_or("").to_string();
+    let Some(mut s) = scenarios::all().into_iter().find(|s| s.name == name) else {
+        println!("unknown scenario {name:?}; known: {:?}", scenarios::all().iter().map(|s| s.name.clone()).collect::<Vec<_>>());
+        std::process::exit(2);
+    };
+    let ks: Vec<usize> = v["k"].as_array().map(|a| a.iter().filter_map(|x| x.as_u64().map(|x| x as usize)).collect()).unwrap_or_default();
+    let es: Vec<i32> = v["errno"].as_array().map(|a| a.iter().filter_map(|x| x.as_i64().map(|x| x as i32)).collect()).unwrap_or_default();
+    let cs: Vec<bool> = v["child"].as_array().map(|a| a.iter().map(|x| x.as_bool().unwrap_or(false)).collect()).unwrap_or_default();
+    let faults: Vec<Fault> = ks.iter().enumerate().map(|(i, k)| Fault { child: cs.get(i).copied().unwrap_or(false), k: *k, errno: es.get(i).copied().unwrap_or(libc::EIO) }).collect();
+    let drop_close = v["drop_close_errno"].as_i64().map(|x| x as i32);
+    shard_setup();
+    let mut env = Env::new(&s.name);
+    if let Some(i) = s.init.as_mut() {
+        i(&mut env);
+    }
+    let shared = alloc_shared();
+    let mut scratch = Report::new();
+    let cx0 = Ctx { shared, base_leaks: None, base_totals: None, verbose: faults.is_empty() && drop_close.is_none() };
+    let base = run_case(&mut s, &mut env, &[], None, &mut scratch, &cx0);
+    let mut r = Report::new();
+    if faults.is_empty() && drop_close.is_none() {
+        r = scratch;
+    } else {
+        let cx = Ctx { shared, base_leaks: Some(&base.leaked), base_totals: Some(&base.totals), verbose: true };
+        run_case(&mut s, &mut env, &faults, drop_close, &mut r, &cx);
+    }
+    if let Some(f) = s.fini.as_mut() {
+        f(&mut env);
+    }
+    env.remove();
+    for v in r.violations.values() {
+        println!("VIOLATED {}: {}", v.key, v.desc);
+    }
+    if r.violations.is_empty() {
+        println!("no violation in this case");
+    }
+    r
+}
+
+fn main() {
+    let args = parse_args();
+    install_panic_hook();
+    if let Some(p) = &args.replay {
+        let v = read_replay(p);
+        let r = replay(&v);
+        std::process::exit(if r.violations.is_empty() { 0 } else { 1 });
+    }
+    if args.rest.iter().any(|a| a == "--list") {
+        for s in scenarios::all() {
+            println!("{}", s.name);
+        }
+        return;
+    }
+    let phase = args.phase.clone().unwrap_or_else(|| "c12".into());
+    let r = match phase.as_str() {
+        "c12" => c12(&args),
+        _ => panic!("unknown phase"),
+    };
+    r.write(&args.out);
+}
